@@ -378,6 +378,71 @@ func c03(x *Ctx) {
 			c.Decide(fn == "processSpan" || fresh, "C03.deadline-writers", fn+"/SendBy", x.Pos(w.Instr), "deadline written in processSpan / at construction", "Trace.SendBy is modified in "+fn+", outside the guarded update in processSpan")
 		}
 	}
+	// ---- every span added to a live trace is followed by the span-limit test ----------------------------------
+	const rLim = "C03.span-limit-checked"
+	if ps := x.P.Func("collect", "CollectorWorker", "processSpan"); ps != nil && ps.Blocks != nil {
+		var add ssa.Instruction
+		eng.Instrs(ps, func(in ssa.Instruction) {
+			if _, ok := eng.IsCall(in, "(*types.Trace).AddSpan"); ok {
+				add = in
+			}
+		})
+		isLimitCmp := func(in ssa.Instruction) bool {
+			b, ok := in.(*ssa.BinOp)
+			if !ok {
+				return false
+			}
+			for _, side := range []ssa.Value{b.X, b.Y} {
+				if _, d := eng.Derives(side, func(v ssa.Value) bool {
+					fr, _, ok := eng.FieldRefOf(v)
+					if ok && fr.Name == "SpanLimit" {
+						return true
+					}
+					return loadsField(v, func(fr eng.FieldRef) bool { return fr.Name == "SpanLimit" })
+				}, eng.FlowOpts{}); d {
+					if _, isK := eng.ConstInt(b.X); isK {
+						continue
+					}
+					if _, isK := eng.ConstInt(b.Y); isK {
+						continue // SpanLimit > 0 is the enabling test, not the comparison with the count
+					}
+					return true
+				}
+			}
+			return false
+		}
+		if add == nil {
+			c.Undecided(rLim, "processSpan", x.PosOf(ps.Pos()), "cannot find where the span is added to the trace")
+		} else {
+			c.Examined++
+			zero := int64(0)
+			as := &eng.Assume{Bool: func(v ssa.Value) eng.Tri {
+				// a span limit is configured
+				return eng.EvalRel(v, []eng.RelFact{{A: func(u ssa.Value) bool {
+					return loadsField(u, func(fr eng.FieldRef) bool { return fr.Name == "SpanLimit" })
+				}, BConst: &zero, Rel: eng.GT}})
+			}}
+			r := eng.Explore(eng.Query{Fn: ps, Assume: as, Start: add, Classify: func(in ssa.Instruction, _ eng.Facts) eng.Event {
+				if isLimitCmp(in) {
+					return eng.EvKill
+				}
+				return eng.EvNone
+			}})
+			skipped := false
+			var path []*ssa.BasicBlock
+			for _, e := range r.Exits {
+				if _, isRet := e.Instr.(*ssa.Return); isRet {
+					skipped, path = true, e.Path
+				}
+			}
+			if skipped {
+				o := c.Violate(rLim, "processSpan", x.Pos(add), "after a span has been added to a buffered trace a path returns without comparing the trace's span count with SpanLimit (a fast path for some kind of span): a trace that grows past the limit on that path is not decided at the next tick but only at its old deadline")
+				o.Path = eng.DescribePath(x.P.Pos, path)
+			} else {
+				c.Hold(rLim, "processSpan", x.Pos(add), "AddSpan ⇒ the span count is compared with SpanLimit on every path")
+			}
+		}
+	}
 	c.Min(rLow, 1)
 	c.Min("C03.requeue-after-lowering", 1)
 	c.Min("C03.deadline-source", 3)
